@@ -112,15 +112,35 @@ ErrPrj == "MissingProjectSettingsNameError"
 ErrDev == "MissingDeviceSettingsNameError"
 Ok(i) == [ok |-> TRUE, id |-> i, err |-> ""]
 Err(e) == [ok |-> FALSE, id |-> NoId, err |-> e]
-NameOf(cell) == IF cell.has = 1 THEN Name(cell.b) ELSE NoName     \* ASCII: bytes = characters
+\* strict UTF-8 (bytes.decode()): shortest form only, no surrogates, at most U+10FFFF, nothing dropped (no signature handling)
+Cont(b, j) == j <= Len(b) /\ b[j] \in 128..191
+RECURSIVE U8(_, _, _)
+U8(b, j, acc) ==
+    IF j > Len(b) THEN [ok |-> TRUE, s |-> acc]
+    ELSE LET c == b[j] IN
+         IF c < 128 THEN U8(b, j + 1, Append(acc, c))
+         ELSE IF c \in 194..223 /\ Cont(b, j + 1) THEN U8(b, j + 2, Append(acc, (c - 192) * 64 + (b[j + 1] - 128)))
+         ELSE IF /\ c \in 224..239 /\ Cont(b, j + 1) /\ Cont(b, j + 2)
+                 /\ (c = 224 => b[j + 1] >= 160) /\ (c = 237 => b[j + 1] <= 159)
+              THEN U8(b, j + 3, Append(acc, (c - 224) * 4096 + (b[j + 1] - 128) * 64 + (b[j + 2] - 128)))
+         ELSE IF /\ c \in 240..244 /\ Cont(b, j + 1) /\ Cont(b, j + 2) /\ Cont(b, j + 3)
+                 /\ (c = 240 => b[j + 1] >= 144) /\ (c = 244 => b[j + 1] <= 143)
+              THEN U8(b, j + 4, Append(acc, (c - 240) * 262144 + (b[j + 1] - 128) * 4096 + (b[j + 2] - 128) * 64 + (b[j + 3] - 128)))
+         ELSE [ok |-> FALSE, s |-> <<>>]
+Utf8(b) == U8(b, 1, <<>>)
+ErrUtf == "UnicodeDecodeError"                                    \* what the library raises for an undecodable name (pinned)
+Undecodable(cell) == cell.has = 1 /\ ~Utf8(cell.b).ok
+NameOf(cell) == IF cell.has = 1 THEN Name(Utf8(cell.b).s) ELSE NoName
 Dev0(V) == IF V[2].has = 1 THEN BE(V[2].b) ELSE 0
 Fallback(v, n, e) == IF n.some = 1 /\ Len(n.s) > 0 THEN Ok(Id(None, None, None, v, n)) ELSE Err(e)   \* name-only form
 DerivePrj(V) ==
     IF V[7].has = 0 THEN Err(ErrPrj)
+    ELSE IF Undecodable(V[6]) THEN Err(ErrUtf)
     ELSE IF V[1].has = 1 /\ V[5].has = 1 THEN Ok(Mk(BE(V[1].b), BE(V[5].b), Dev0(V), BE(V[7].b), NameOf(V[6])))
     ELSE Fallback(BE(V[7].b), NameOf(V[6]), ErrPrj)
 DeriveDev(V) ==
     IF V[4].has = 0 THEN Err(ErrDev)
+    ELSE IF Undecodable(V[3]) THEN Err(ErrUtf)
     ELSE IF V[1].has = 1 THEN Ok(Mk(BE(V[1].b), 0, Dev0(V), BE(V[4].b), NameOf(V[3])))
     ELSE Fallback(BE(V[4].b), NameOf(V[3]), ErrDev)
 Derive(which, V) == IF which = "prj" THEN DerivePrj(V) ELSE DeriveDev(V)
